@@ -23,6 +23,8 @@ var (
 	// ErrInfra marks harness trouble (hang past the watchdog, protocol error):
 	// exit 2, never a VIOLATION.
 	ErrInfra = errors.New("infrastructure error")
+	// ErrPlannedCrash: the lifetime ended by the crash the fault plan asked for.
+	ErrPlannedCrash = errors.New("planned crash fired")
 	// ErrChildDied: the child process ended without a planned crash message.
 	ErrChildDied = errors.New("child process died unexpectedly")
 )
